@@ -8,7 +8,10 @@ import (
 func HDecodeEap() {
 	b := vr.Input(vr.Param(0))
 	e := new(EAP)
-	if err := e.Unmarshal(b); err == nil {
+	before := append([]byte{}, b...)
+	err := e.Unmarshal(b)
+	vr.Assert("c04.input-unchanged", vr.EqBytes(b, before))
+	if err == nil {
 		vr.Cover("c04.eap.accepted")
 	} else {
 		vr.Cover("c04.eap.rejected")
